@@ -10,7 +10,7 @@ import numpy as np
 from gens import atoms_of, base_cells, make_supercell
 from tensors import same_span
 
-UNITS = ["ShapesSpg", "ShapesGeom", "ShapesReps", "SkelSpg", "SkelCut", "ShapesApi", "SkelApi", "IndepGen"]
+UNITS = ["ShapesSpg", "ShapesGeom", "ShapesReps", "SkelSpg", "SkelCut", "ShapesApi", "SkelApi", "IndepGen", "SolverStruct", "ShapesSolvers", "SkelSolvers", "Tables", "ShapesCombos", "ShapesPerm", "ShapesCoset", "ShapesSumRule", "ShapesBasis", "ShapesO1", "ShapesAuxO1", "ShapesAuxEig", "ShapesAuxBatch", "EigStruct", "CutoffGen", "ShapesAuxCut", "SkelBasis", "SkelEig", "SkelMat", "SkelPerm", "SkelIdx"]
 PROPS = ["props/C10.v"]
 EXTRA = ["theories/Spg.vo"]
 ASSUMPTIONS = ["that spglib returns the conjugated group for the transformed description, and the float rounding/sorting fast path, are not modelled: the relation between runs of the real code is established by this metamorphic oracle (partial)"]
